@@ -68,7 +68,9 @@ var propTable = map[string]propInfo{
 			"postcondition of every function from raft.Step and tickElection down that can write the hard state (become*, reset, campaign, hup, the handlers, restore, " +
 			"commitTo, maybeCommit, appliedTo, the three step functions); Step adds the exact term rule (#term-rule), #prevote-changes-nothing and #stale-term-ignored. " +
 			"RawNode.readyWithoutAccept emits the hard state exactly when it differs from the previous one and " +
-			"HasReady reports every such change. acceptReady remembers it (prevHardSt). Not under contract (assumed): appliedSnap, switchToConfig, tickHeartbeat, Advance.",
+			"HasReady reports every such change. acceptReady remembers it (prevHardSt). Restart: newRaft restores exactly the term and vote that Storage.InitialState reports " +
+			"(loadState#restored, newRaft#hard-state-restored) and NewRawNode treats that hard state as already emitted; switchToConfig and applyConfChange keep the hard state " +
+			"monotone. Not under contract (assumed): appliedSnap, tickHeartbeat, Advance.",
 	},
 	"C08": {
 		Level: "proof",
@@ -129,7 +131,10 @@ var propTable = map[string]propInfo{
 		Explanation: commonMethod + "For every function under contract, each Panicf/panic site, nil dereference, index/slice bound and division is an obligation discharged " +
 			"under the function's stated usage preconditions (labelled [C14]: E-msg-wf message well-formedness, E-ready-contract, E-app-conf, A-arith); callers discharge " +
 			"callee preconditions. What is proved is: no assertion fires in these functions when the listed preconditions hold; that contract-respecting usage implies " +
-			"the preconditions at the API boundary (RawNode) is not decided (only RawNode's read side is under contract). Found and fixed F-1 (MemoryStorage.Term).",
+			"the preconditions at the API boundary is decided for part of the boundary: newRaft/NewRawNode establish the node invariant from a valid Config and a consistent " +
+			"Storage; RawNode.Step rejects local-only message types from the network and responses from unknown peers without touching the node; for Campaign, Propose, ReadIndex, " +
+			"TransferLeader, ReportUnreachable, ReportSnapshot and ForgetLeader the well-formedness of the stepped message is proved, not assumed. Tick, Advance, " +
+			"ProposeConfChange, ApplyConfChange (RawNode wrapper) and Bootstrap are not under contract. Found and fixed F-1 (MemoryStorage.Term).",
 	},
 	"C16": {
 		Level: "proof",
@@ -147,6 +152,8 @@ var propTable = map[string]propInfo{
 			"changes term, vote, role or timers (#prevote-changes-nothing); a granted MsgPreVoteResp from the future does not make the node adopt that term (#term-rule); " +
 			"a pre-candidate starts the real election only on a Won pre-vote tally (campaign#prevote-won) and tallies only its own response type (stepCandidate#ignored); " +
 			"CheckQuorum: the leader steps down iff no quorum was recently active and then marks every peer inactive (stepLeader#check-quorum, QuorumActive in counting form); " +
+			"only a response from the peer itself (MsgAppResp, MsgHeartbeatResp) marks it recently active; MsgUnreachable, MsgSnapStatus and MsgTransferLeader do not " +
+			"(stepLeader#recent-active-only-on-response); a leader contact of any kind (MsgApp, MsgHeartbeat, MsgSnap) renews the follower's lease (stepFollower#leader-contact); " +
 			"leader transfer bookkeeping (#transfer). The timing bound over several ticks is not decided here.",
 	},
 	"C18": {
@@ -156,7 +163,9 @@ var propTable = map[string]propInfo{
 			"operation is proved to preserve, and each query/update has a functional postcondition over the abstract view: exact ErrCompacted/ErrUnavailable ranges, " +
 			"term-at, entry windows with limitSize semantics (non-empty maximal prefix within the budget), Append = keep-prefix ++ new entries, Compact, " +
 			"stableTo dropping exactly the acknowledged prefix only when (index, term) matches (ABA), truncateAndAppend's three cases, and no-overwrite frames " +
-			"(no cell of a previously exposed backing-array window is written); the combined raftLog view (term, slice, entries, firstIndex/lastIndex) is proved against both.",
+			"(no cell of a previously exposed backing-array window is written); the combined raftLog view (term, slice, entries, firstIndex/lastIndex) is proved against both. " +
+			"MemoryStorage.ApplySnapshot refuses a snapshot that is not newer than the stored one and leaves the log alone, CreateSnapshot only moves forward and never touches the entries; " +
+			"newLogWithSize starts the combined view at the storage's compaction point.",
 	},
 	"C19": {
 		Level: "other",
